@@ -1023,7 +1023,7 @@ class Exec:
             return t
         if n == "implies":
             return simp(z3.Implies(self.truth(args[0]), self.truth(args[1])))
-        if n == "cast":
+        if n in ("cast", "typing.cast"):
             return args[1]
         if n in ("ord", "chr"):
             return self.as_int(args[0])      # str values are sequences of code points
@@ -1583,6 +1583,8 @@ class Exec:
                 return
             if step:
                 step()
+            if spec is not None and spec.get("on_step"):
+                spec["on_step"](self, fr)
             self.check_invariants(spec, ordn, fr, "inv-pres")
             if var0 is not None:
                 var1 = self.reg.loop_variant(self, spec, fr)
@@ -1592,7 +1594,7 @@ class Exec:
         if not self.feasible():
             raise PathEnd()
         # optional proof hints at loop exit: each is proved from (invariant and not cond), then assumed
-        if spec is not None and spec.get("exit"):
+        if spec is not None and spec.get("exit") and "contract" in spec:
             con = spec["contract"]
             for idx, (clause, cfr) in enumerate(self.reg.loop_clauses(self, dict(spec, inv=spec["exit"]), fr)):
                 t = self.truth(self.ev(clause, cfr))
